@@ -98,17 +98,17 @@ def encodeEntries (es : List Entry) : Bytes := es.flatMap encodeEntry
 
 /-- `Entry.Deserialize`: the entry and the number of bytes consumed. -/
 def decodeEntry (buf : Bytes) : Except Err (Entry × Nat) :=
-  if buf.length < 7 then .error .entry else
+  if shorterThan buf 7 then .error .entry else
   match buf with
   | [] => .error .entry
   | op :: t =>
     let keyLen := unle (t.take 2)
-    if buf.length < 3 + keyLen + 4 then .error .entry else
+    if shorterThan buf (3 + keyLen + 4) then .error .entry else
     let key := (t.drop 2).take keyLen
     if key.isEmpty then .error .emptyKey else
     let t2 := (t.drop 2).drop keyLen
     let dataLen := unle (t2.take 4)
-    if buf.length < 7 + keyLen + dataLen then .error .entry else
+    if shorterThan buf (7 + keyLen + dataLen) then .error .entry else
     .ok (⟨op, key, (t2.drop 4).take dataLen⟩, 7 + keyLen + dataLen)
 
 /-- The entries the engine can encode faithfully. -/
